@@ -14,23 +14,27 @@ open Rpft Rpft.Compile Rpft.RefFlow
 abbrev isSwitchKind (K : Kind) : Prop := K = .wait ∨ K = .splitValue ∨ K = .splitGroup
 
 /-- kinds of rows whose conditional out-edges are tests of a switch -/
-abbrev isTestKind (K : Kind) : Prop := isSwitchKind K ∨ K = .action
+abbrev isTestKind (K : Kind) : Prop := isSwitchKind K ∨ K = .action ∨ K = .noOp
 
 structure Good (rows : List CRow) (outF : List OutEdge) : Prop where
   ok : ∀ e ∈ outF, edgeOk rows e = true
   dist : ∀ (j : Nat) (c : CRow), rows[j]? = some c → isTestKind (kindOf c.row.type) →
     ((testsOf (kindOf c.row.type) (outF.filter (·.src = j))).map (fun e => refTest (kindOf c.row.type) e.cond)).Nodup
-  var : ∀ (j : Nat) (c : CRow), rows[j]? = some c → kindOf c.row.type = .action →
+  var : ∀ (j : Nat) (c : CRow), rows[j]? = some c → (kindOf c.row.type = .action ∨ kindOf c.row.type = .noOp) →
     ∀ e ∈ (outF.filter (·.src = j)).filter (fun e => !e.cond.blank), e.cond.var = implVar (outF.filter (·.src = j))
   names : ∀ (j : Nat) (c : CRow), rows[j]? = some c → isTestKind (kindOf c.row.type) →
     namesOk (kindOf c.row.type) (timeoutOf c.row) [] (testsOf (kindOf c.row.type) (outF.filter (·.src = j))) = true
+  /-- the merged rows are marked -/
+  annot : Annot rows
 
-theorem Good.nodup_prefix {rows : List CRow} {outF l : List OutEdge} (g : Good rows outF) (hl : l <+: outF)
-    (j : Nat) (c : CRow) (hc : rows[j]? = some c) (hk : isTestKind (kindOf c.row.type)) :
-    ((testsOf (kindOf c.row.type) (l.filter (·.src = j))).map (fun e => refTest (kindOf c.row.type) e.cond)).Nodup := by
+/-- per source row: `l` is a prefix of the out-edges of row `j` -/
+theorem Good.nodup_prefix {rows : List CRow} {outF l : List OutEdge} (g : Good rows outF) (j : Nat)
+    (hl : l <+: outF.filter (·.src = j))
+    (c : CRow) (hc : rows[j]? = some c) (hk : isTestKind (kindOf c.row.type)) :
+    ((testsOf (kindOf c.row.type) l).map (fun e => refTest (kindOf c.row.type) e.cond)).Nodup := by
   refine List.Nodup.sublist ?_ (g.dist j c hc hk)
   unfold testsOf
-  exact ((((hl.filter _).filter _).filter _).map _).sublist
+  exact (((hl.filter _).filter _).map _).sublist
 
 /-- the variable of the conditional edges of a prefix is that of the whole list -/
 theorem implVar_prefix {l L : List OutEdge} (hl : l <+: L) (hne : l.filter (fun e => !e.cond.blank) ≠ []) :
@@ -42,18 +46,18 @@ theorem implVar_prefix {l L : List OutEdge} (hl : l <+: L) (hne : l.filter (fun 
   | nil => exact absurd hf hne
   | cons a l' => rfl
 
-theorem Good.var_prefix {rows : List CRow} {outF l : List OutEdge} (g : Good rows outF) (hl : l <+: outF)
-    (j : Nat) (c : CRow) (hc : rows[j]? = some c) (hk : kindOf c.row.type = .action)
-    (e : OutEdge) (he : e ∈ l.filter (·.src = j)) (hb : e.cond.blank = false) :
-    e.cond.var = implVar (l.filter (·.src = j)) := by
-  have hpre : l.filter (·.src = j) <+: outF.filter (·.src = j) := hl.filter _
-  have hmem : e ∈ (l.filter (·.src = j)).filter (fun e => !e.cond.blank) := by
+theorem Good.var_prefix {rows : List CRow} {outF l : List OutEdge} (g : Good rows outF) (j : Nat)
+    (hl : l <+: outF.filter (·.src = j))
+    (c : CRow) (hc : rows[j]? = some c) (hk : kindOf c.row.type = .action ∨ kindOf c.row.type = .noOp)
+    (e : OutEdge) (he : e ∈ l) (hb : e.cond.blank = false) :
+    e.cond.var = implVar l := by
+  have hmem : e ∈ l.filter (fun e => !e.cond.blank) := by
     rw [List.mem_filter]; exact ⟨he, by simp [hb]⟩
   have h1 := g.var j c hc hk e (by
     rw [List.mem_filter] at hmem ⊢
-    exact ⟨hpre.subset hmem.1, hmem.2⟩)
+    exact ⟨hl.subset hmem.1, hmem.2⟩)
   rw [h1]
-  exact implVar_prefix hpre (List.ne_nil_of_mem hmem)
+  exact implVar_prefix hl (List.ne_nil_of_mem hmem)
 
 theorem blank_value {cond : Compile.Cond} (h : cond.blank = true) : cond.value = [] := by
   unfold Compile.Cond.blank at h
@@ -63,18 +67,18 @@ theorem blank_value {cond : Compile.Cond} (h : cond.blank = true) : cond.value =
 theorem lower_eq (v : Str) : RefFlow.lower v = Compile.lower v := rfl
 
 /-- the explicit category name of a new test is not in use -/
-theorem Good.fresh_prefix {rows : List CRow} {outF l : List OutEdge} (g : Good rows outF) (hl : l <+: outF)
+theorem Good.fresh_prefix {rows : List CRow} {outF : List OutEdge} (g : Good rows outF)
     (j : Nat) (c : CRow) (hc : rows[j]? = some c) (hk : isTestKind (kindOf c.row.type))
-    (es : List OutEdge) (e : OutEdge) (hfil : l.filter (·.src = j) = es ++ [e])
+    (es : List OutEdge) (e : OutEdge) (hl : es ++ [e] <+: outF.filter (·.src = j))
     (htests : testsOf (kindOf c.row.type) (es ++ [e]) = testsOf (kindOf c.row.type) es ++ [e])
     (hne : e.cond.name ≠ []) :
     e.cond.name ∉ namesFrom (kindOf c.row.type) (timeoutOf c.row) [] (testsOf (kindOf c.row.type) es) ++
       baseNames (kindOf c.row.type) (timeoutOf c.row) := by
-  have hpre : testsOf (kindOf c.row.type) (l.filter (·.src = j)) <+: testsOf (kindOf c.row.type) (outF.filter (·.src = j)) := by
+  have hpre : testsOf (kindOf c.row.type) (es ++ [e]) <+: testsOf (kindOf c.row.type) (outF.filter (·.src = j)) := by
     unfold testsOf
-    exact ((hl.filter _).filter _).filter _
+    exact (hl.filter _).filter _
   have hok := namesOk_prefix _ _ _ _ hpre (g.names j c hc hk)
-  rw [hfil, htests] at hok
+  rw [htests] at hok
   exact namesOk_last _ _ _ _ hok hne
 
 /-- what `edgeOk` says about a conditional edge leaving an action row -/
@@ -88,26 +92,24 @@ theorem action_edge_ok (cond : Compile.Cond) (he : cond.blank = false)
 theorem post_of_fixed (rows : List CRow) (M : Maps) (pd : Bool) (kg : Nat) (tgt : Target) (cond : Compile.Cond) (s : St)
     (st : P1) (j : Nat) (m : Compile.M PUnit) (h : wp m s (EdgePost rows M pd kg tgt cond s st j)) :
     wp m s (EdgePost' rows M pd kg tgt cond s st j) :=
-  wp_mono h (fun _ s' ⟨r, e⟩ => ⟨M, fun _ => rfl, r, e⟩)
+  wp_mono h (fun _ s' ⟨r, e, hg⟩ => ⟨M, fun _ => rfl, rfl, rfl, r, e, fun _ _ => by rw [hg]⟩)
 
 /-- one out-edge leaving row `j` -/
 theorem addExit_sim (rows : List CRow) (outF : List OutEdge) (g : Good rows outF) (M : Maps) (pd : Bool) (kg : Nat)
     (d : Dest) (tgt : Target) (cond : Compile.Cond) (s : St) (st : P1) (j : Nat) (h : Rel rows M pd kg s st)
-    (hj : j < kg) (hjn : ∃ c, rows[j]? = some c ∧ isNodeRow c = true)
-    (hd : DestIs M s.nodes d (some tgt)) (htg : ∀ t, tgt = Target.row t → t < kg ∨ (pd = true ∧ t = kg))
-    (hpre : (newEdge tgt cond j :: st.out).reverse <+: outF) :
-    wp (addExit (2 * s.groups.size + 8) (gOf rows j) d cond) s (EdgePost' rows M pd kg tgt cond s st j) := by
-  obtain ⟨c, hc, hnode⟩ := hjn
-  have hg := h.grp j c hj hc hnode
+    (hj : j < kg) (hjn : ∃ c, rows[j]? = some c ∧ isNodeRow c = true ∧ isNoop c = false)
+    (hd : DestIs M s.nodes d (some tgt))
+    (htg : ∀ t, tgt = Target.row t → (t < kg ∨ (pd = true ∧ t = kg)) ∧ M.fr t = false)
+    (hmem : newEdge tgt cond j ∈ outF)
+    (hpre : outOf st j ++ [newEdge tgt cond j] <+: outF.filter (·.src = j)) (f : Nat) :
+    wp (addExit (f + 1) (gOf rows j) d cond) s (EdgePost' rows M pd kg tgt cond s st j) := by
+  obtain ⟨c, hc, hnode0, hnn⟩ := hjn
+  have hnode : isNodeRow c = true ∧ M.el j = false := ⟨hnode0, h.elno j c hc hnn⟩
+  have hg := h.grp j c hj hc hnode0 hnn
   obtain ⟨n, hn, hrsim⟩ := h.node j c ⟨.inl hj, hc, hnode⟩
   -- what the single-meaning conditions say about this edge
-  have hok : edgeOk rows (newEdge tgt cond j) = true :=
-    g.ok _ (hpre.subset (by simp))
-  have hfil : (newEdge tgt cond j :: st.out).reverse.filter (·.src = j) = outOf st j ++ [newEdge tgt cond j] := by
-    simp [outOf, List.filter_append]
+  have hok : edgeOk rows (newEdge tgt cond j) = true := g.ok _ hmem
   simp only [edgeOk, hc, Option.map_some, toRCond_blank] at hok
-  have hfuel : 2 * s.groups.size + 8 = (2 * s.groups.size + 7) + 1 := by omega
-  rw [hfuel]
   unfold addExit
   wp_simp [wp_getGrp]
   intro grp hgrp
@@ -134,13 +136,12 @@ theorem addExit_sim (rows : List CRow) (outF : List OutEdge) (g : Good rows outF
       have hnr := action_edge_ok cond he' hok
       refine ⟨fun hh => absurd hh.1 he, fun _ => ⟨fun hh => absurd hh hke, fun _ => ⟨fun hh => absurd hh hkw, fun _ =>
         ⟨fun hh => absurd hh.2 hnr, fun _ => ?_⟩⟩⟩⟩
-      have hfreeN := g.fresh_prefix hpre j c hc (.inr hk) (outOf st j) (newEdge tgt cond j) hfil
+      have hfreeN := g.fresh_prefix j c hc (.inr (.inl hk)) (outOf st j) (newEdge tgt cond j) hpre
         (by rw [hk]; exact tests_action_append _ _ (by simpa [toRCond_blank] using he'))
       rw [hk] at hfreeN
-      have hdist := g.nodup_prefix hpre j c hc (.inr hk)
-      rw [hfil, hk] at hdist
-      have hvar := g.var_prefix hpre j c hc hk (newEdge tgt cond j) (by rw [hfil]; simp) (by simpa [toRCond_blank] using he')
-      rw [hfil] at hvar
+      have hdist := g.nodup_prefix j hpre c hc (.inr (.inl hk))
+      rw [hk] at hdist
+      have hvar := g.var_prefix j hpre c hc (.inl hk) (newEdge tgt cond j) (by simp) (by simpa [toRCond_blank] using he')
       exact impl_test_sim rows M pd kg d tgt cond s st j n c h hj hn hc hnode hk hd htg i' n' r hro hp he' hfreeN hvar hdist
   | one hsim =>
   simp only [Option.toList, List.getLast?_singleton]
@@ -163,13 +164,12 @@ theorem addExit_sim (rows : List CRow) (outF : List OutEdge) (g : Good rows outF
       have hnr := action_edge_ok cond he' hok
       refine ⟨fun hh => absurd hh.1 he, fun _ => ⟨fun hh => absurd hh hke, fun _ => ⟨fun hh => absurd hh hkw, fun _ =>
         ⟨fun hh => absurd hh.1 hks, fun _ => ?_⟩⟩⟩⟩
-      have hfreeN := g.fresh_prefix hpre j c hc (.inr hk) (outOf st j) (newEdge tgt cond j) hfil
+      have hfreeN := g.fresh_prefix j c hc (.inr (.inl hk)) (outOf st j) (newEdge tgt cond j) hpre
         (by rw [hk]; exact tests_action_append _ _ (by simpa [toRCond_blank] using he'))
       rw [hk] at hfreeN
       exact impl_first_sim rows M pd kg d tgt cond s st j n c h hj hn hc hnode hk hd htg hro hp he' hfreeN
   | sw r hk hp =>
-    have hdist := g.nodup_prefix hpre j c hc (.inl hk)
-    rw [hfil] at hdist
+    have hdist := g.nodup_prefix j hpre c hc (.inl hk)
     have hkr : n.kind ≠ NodeKind.random := by rw [hp.kind]; intro hh; cases hh
     have hke : n.kind ≠ NodeKind.enter := by rw [hp.kind]; intro hh; cases hh
     have hkw : ¬ (n.kind = NodeKind.webhook ∨ n.kind = NodeKind.airtime) := by
@@ -194,7 +194,7 @@ theorem addExit_sim (rows : List CRow) (outF : List OutEdge) (g : Good rows outF
           rintro ⟨_, h2⟩
           simp only [isNR_toRCond, decide_eq_true_eq] at h2
           exact hnr h2
-        have hfreeN := g.fresh_prefix hpre j c hc (.inl hk) (outOf st j) (newEdge tgt cond j) hfil
+        have hfreeN := g.fresh_prefix j c hc (.inl hk) (outOf st j) (newEdge tgt cond j) hpre
           (testsOf_append_test _ _ _ heb hnotnr)
         have hvar : kindOf c.row.type = .wait → cond.var = [] := by
           intro h1; rw [h1] at hok
@@ -209,6 +209,8 @@ theorem addExit_sim (rows : List CRow) (outF : List OutEdge) (g : Good rows outF
     refine ⟨fun hh => absurd hp.kind hh.2, fun _ => ⟨fun hh => absurd hh hke, fun _ => ⟨fun hh => absurd hh hkw, fun _ =>
       ⟨fun hh => absurd hh.1 hks, fun _ => ?_⟩⟩⟩⟩
     exact post_of_fixed _ _ _ _ _ _ _ _ _ _ (rand_edge_sim rows M pd kg d tgt cond s st j n c h hj hn hc hnode hro hd htg r hk hp hok)
+  | nop r hk hp =>
+    rw [isNoop_of_kind hk] at hnn; cases hnn
   | fix r sc hk hp =>
     have hkr : n.kind ≠ NodeKind.random := by
       rw [hp.kind]; rcases hk with h1 | h1 | h1 <;> rw [h1] <;> intro hh <;> cases hh
@@ -295,108 +297,5 @@ theorem addExit_sim (rows : List CRow) (outF : List OutEdge) (g : Good rows outF
             have hf : isFail (kindOf c.row.type) (newEdge tgt cond j) = true := (isFail_hook _ hent _).mpr (.inr hx)
             exact post_of_fixed _ _ _ _ _ _ _ _ _ _ (fix_fail_sim rows M pd kg d tgt cond s st j n c h hj hn hc hnode hro hd htg r sc hk hp hs hf)
           · exact trivial
-
-/-- one edge with destination `d` (reference target `tgt`): the compiler machine and pass 1 stay
-related -/
-theorem edge_sim (rows : List CRow) (outF : List OutEdge) (g : Good rows outF) (M : Maps) (pd : Bool) (kg : Nat)
-    (d : Dest) (tgt : Target) (e : Compile.Edge) (s : St) (st st' : P1) (h : Rel rows M pd kg s st)
-    (hd : DestIs M s.nodes d (some tgt)) (htg : ∀ t, tgt = Target.row t → t < kg ∨ (pd = true ∧ t = kg))
-    (hst : edgeStep st kg (toREdge e) tgt = .ok st')
-    (hpre : st'.out.reverse <+: outF) :
-    wp (addRowEdge d e) s (fun _ s' => ∃ M' : Maps, (∀ t, M'.nOf t = M.nOf t) ∧ Rel rows M' pd kg s' st' ∧ NExt s.nodes s'.nodes) := by
-  unfold edgeStep at hst
-  have key : ∀ j, edgeSrc st kg (toREdge e) = .ok (some j) → j < kg → (∃ c, rows[j]? = some c ∧ isNodeRow c = true) →
-      wp (addExit (2 * s.groups.size + 8) (gOf rows j) d e.cond) s (fun _ s' =>
-        ∃ M' : Maps, (∀ t, M'.nOf t = M.nOf t) ∧ Rel rows M' pd kg s' st' ∧ NExt s.nodes s'.nodes) := by
-    intro j hsrc hj hjn
-    rw [hsrc] at hst
-    simp only [Except.ok.injEq] at hst
-    subst hst
-    exact addExit_sim rows outF g M pd kg d tgt e.cond s st j h hj hjn hd htg hpre
-  unfold addRowEdge
-  wp_simp [wp_groupOfEdge, wp_fuelOf]
-  by_cases hs : e.from_ = "start".toList
-  · have : edgeSrc st kg (toREdge e) = .ok none := by simp [edgeSrc, toREdge, hs]
-    rw [this] at hst; injection hst with hst; subst hst
-    rw [if_pos hs]
-    exact ⟨M, fun _ => rfl, h, NExt.refl _⟩
-  · rw [if_neg hs]
-    by_cases hemp : e.from_ = []
-    · have hsrc : edgeSrc st kg (toREdge e) = .ok st.prev := by
-        simp only [edgeSrc, toREdge, hs, hemp, List.isEmpty_nil, if_true, if_false]
-        cases st.prev <;> rfl
-      rw [if_pos hemp, h.stack, mostRecent_root s.groups _ h.root]
-      have hprev := h.prev
-      cases hpv : st.prev with
-      | none =>
-        rw [hpv] at hsrc
-        rw [hsrc] at hst
-        have hprev' : gOf rows kg = 1 := by have := h.prev; rw [hpv] at this; exact this
-        have : gOf rows kg - 1 = 0 := by omega
-        simp only [this, if_true]
-        injection hst with hst; subst hst
-        exact ⟨M, fun _ => rfl, h, NExt.refl _⟩
-      | some p =>
-        rw [hpv] at hsrc
-        have hprev' : p < kg ∧ (∃ c, rows[p]? = some c ∧ isNodeRow c = true) ∧ gOf rows p + 1 = gOf rows kg := by
-          have := h.prev; rw [hpv] at this; exact this
-        obtain ⟨hp1, hp2, hp3⟩ := hprev'
-        have hpos := gOf_pos rows p
-        have hne : ¬ (gOf rows kg - 1 = 0) := by omega
-        simp only [hne, if_false]
-        wp_simp [wp_fuelOf]
-        have := key p hsrc hp1 hp2
-        have e1 : gOf rows kg - 1 = gOf rows p := by omega
-        rw [e1]
-        exact this
-    · have hsrc : edgeSrc st kg (toREdge e) =
-          match lookupId st.ids e.from_ with
-          | some j => .ok (some j)
-          | none => .error (.unknownFrom kg e.from_) := by
-        simp only [edgeSrc, toREdge, hs, if_false, List.isEmpty_iff, hemp]
-        rfl
-      rw [if_neg hemp, h.ids, lookup_ids]
-      cases hl : lookupId st.ids e.from_ with
-      | none => simp only [Option.map_none]
-      | some j =>
-        simp only [Option.map_some]
-        obtain ⟨p, hp, hpj⟩ := lookupId_mem hl
-        have := h.idok p hp
-        rw [hpj] at this
-        exact key j (by rw [hsrc, hl]) this.1 this.2
-
-/-! ### all edges of a row that lead to one destination -/
-
-theorem edges_sim (rows : List CRow) (outF : List OutEdge) (g : Good rows outF) (M : Maps) (pd : Bool) (kg : Nat)
-    (d : Dest) (tgt : Target) :
-    ∀ (es : List Compile.Edge) (s : St) (st st' : P1),
-      Rel rows M pd kg s st → DestIs M s.nodes d (some tgt) →
-      (∀ t, tgt = Target.row t → t < kg ∨ (pd = true ∧ t = kg)) →
-      addEdges st kg (es.map fun e => (toREdge e, tgt)) = .ok st' →
-      st'.out.reverse <+: outF →
-      wp (es.forM (addRowEdge d)) s (fun _ s' =>
-        ∃ M' : Maps, (∀ t, M'.nOf t = M.nOf t) ∧ Rel rows M' pd kg s' st' ∧ NExt s.nodes s'.nodes) := by
-  intro es
-  induction es generalizing M with
-  | nil =>
-    intro s st st' h _ _ hst _
-    rw [List.map_nil, addEdges_nil] at hst
-    injection hst with hst; subst hst
-    rw [wp_forM_nil]; exact ⟨M, fun _ => rfl, h, NExt.refl _⟩
-  | cons e es ih =>
-    intro s st st' h hd htg hst hpre
-    rw [List.map_cons, addEdges_cons] at hst
-    rw [wp_forM_cons]
-    cases h1 : edgeStep st kg (toREdge e) tgt with
-    | error err => rw [h1] at hst; cases hst
-    | ok st1 =>
-      rw [h1] at hst
-      simp only at hst
-      have hpre1 : st1.out.reverse <+: outF := (addEdges_prefix _ _ _ _ hst).trans hpre
-      refine wp_mono (edge_sim rows outF g M pd kg d tgt e s st st1 h hd htg h1 hpre1) ?_
-      intro _ s1 ⟨M1, hM1, r1, e1⟩
-      refine wp_mono (ih M1 s1 st1 st' r1 ((hd.ext e1).congrN hM1) htg hst hpre) ?_
-      intro _ s2 ⟨M2, hM2, r2, e2⟩
-      exact ⟨M2, fun t => by rw [hM2, hM1], r2, e1.trans e2⟩
 
 end Rpft.CoreSheet
